@@ -14,16 +14,23 @@ def perpendicular_vector(v):
     Compute a vector perpendicular to the input vector
     """
 
-    if v.z.values == 0:
-        return Vector(-v.y.values, v.x.values, 0, unit=v.unit)
+    x, y, z = v.x.values, v.y.values, v.z.values
+    if z == 0:
+        return Vector(-y, x, 0, unit=v.unit)
     else:
-        return Vector(1.0, 1.0, (-1.0 * (v.x + v.y) / v.z).values, unit=v.unit)
+        # Same direction as (1, 1, -(x + y) / z), but without dividing by z, which
+        # overflows when z is very small compared to x + y
+        return Vector(abs(z), abs(z), -(x + y) * np.sign(z), unit=v.unit)
 
 
 def normalize(v):
     """
     Normalize the input vector
     """
+    # Scale by the largest component first: the squares in the norm of very large or
+    # very small vectors would otherwise overflow or underflow
+    largest = np.max([np.abs(c.values) for c in v._xyz.values()], axis=0)
+    v = v / np.where(largest == 0, 1, largest)
     norm = v.norm
     nvals = norm.values
     if norm.shape:
@@ -284,12 +291,9 @@ class Vector(Base):
 
 class VectorBasis:
     def __init__(self, n, u=None, v=None):
-        self.n = n
-        self.u = perpendicular_vector(self.n) if u is None else u
-        self.v = self.n.cross(self.u) if v is None else v
-        self.n = normalize(self.n)
-        self.u = normalize(self.u)
-        self.v = normalize(self.v)
+        self.n = normalize(n)
+        self.u = normalize(perpendicular_vector(self.n) if u is None else u)
+        self.v = normalize(self.n.cross(self.u) if v is None else v)
         self.n.name = n.name
         if u is not None:
             self.u.name = u.name
